@@ -132,7 +132,14 @@ func (v *version) Clone() *version {
 	clone.nonce = make([]byte, len(v.nonce))
 	copy(clone.nonce, v.nonce)
 
-	// not copying metadata
+	// the clone has its own map: writing a metadata in the clone must not change the original,
+	// which is immutable once it has an Id or has been committed
+	if v.metadata != nil {
+		clone.metadata = make(map[string]string, len(v.metadata))
+		for key, val := range v.metadata {
+			clone.metadata[key] = val
+		}
+	}
 
 	return &clone
 }
